@@ -261,7 +261,9 @@ def run_seq(res, mb, bc, sizes, pre_active='', pre_backs=None, time_format=None,
             before_active = os.path.getsize(path) if os.path.exists(path) else 0
             try:
                 # the redirector hands over what it read from the pipe: bytes
-                st({'data': data.encode('utf8') if as_bytes else data, 'pid': 4242})
+                # one stream serves all the workers of a watcher: consecutive chunks come from different pids
+                wpid = 4242 if time_format is None else [4242, 77, 4242, 31999, 77][k % 5]
+                st({'data': data.encode('utf8') if as_bytes else data, 'pid': wpid})
             except Exception as e:      # noqa
                 res.violation('C20/write-raised:%s' % type(e).__name__, 'writing %d characters to %r raised %r (%s)'
                               % (len(data), os.path.basename(path), e, ctx))
@@ -271,7 +273,7 @@ def run_seq(res, mb, bc, sizes, pre_active='', pre_backs=None, time_format=None,
                 hist += data
             else:
                 from datetime import datetime
-                prefix = '%s [4242] | ' % datetime.now().strftime(time_format)
+                prefix = '%s [%d] | ' % (datetime.now().strftime(time_format), wpid)
                 hist += prefix + data.rstrip('\n').replace('\n', '\n' + prefix) + '\n'
             written.append(len(data.encode('utf8')))
             if time_format is None:
@@ -289,7 +291,7 @@ def run_seq(res, mb, bc, sizes, pre_active='', pre_backs=None, time_format=None,
                         if line == '':
                             continue
                         res.obs['prefixed_lines_checked'] += 1
-                        if not re.match(r'^\d{4}-\d\d \[4242\] \| ', line):
+                        if not re.match(r'^\d{4}-\d\d \[(4242|77|31999)\] \| ', line):
                             if fn == 'active' and pre_active and text.startswith(pre_active) and line in pre_active:
                                 continue
                             if any(line in v for v in pre_backs.values()):
